@@ -28,6 +28,7 @@ type cworker struct {
 	parked   chan string
 	left     int // ops not yet returned
 	suppress int // >0 while inside a child of the root
+	gid      int64
 }
 
 var (
@@ -98,6 +99,7 @@ func runConc(m map[string]string) string {
 		ready := make(chan struct{})
 		go func() {
 			id := goid()
+			w.gid = id
 			workers.Store(id, w)
 			defer workers.Delete(id)
 			close(ready)
@@ -130,14 +132,18 @@ func runConc(m map[string]string) string {
 		<-ready
 	}
 	var log []string
+	timedOut := false
 	stepW := func(i int) bool { // returns false on panic or when the worker does not come back
 		w := ws[i]
 		w.resume <- struct{}{}
-		var ev string
-		select {
-		case ev = <-w.parked:
-		case <-time.After(2 * time.Second):
-			// blocked for good (only one goroutine runs at a time, so nobody can release it): a deadlock
+		// blocked for good (only one goroutine runs at a time, so nobody can release it) = a deadlock; decided by looking
+		// at the goroutine, not by the clock (hangwatch.go)
+		ev, why := hwAwait(w.parked, 2*time.Second, func() []int64 { return []int64{w.gid} })
+		if why == "TIMEOUT" {
+			timedOut = true
+			return false
+		}
+		if why == "HANG" {
 			log = append(log, fmt.Sprintf("%d:HANG", i))
 			return false
 		}
@@ -194,6 +200,9 @@ func runConc(m map[string]string) string {
 				}(w)
 			}
 		}
+	}
+	if timedOut {
+		return "TIMEOUT"
 	}
 	return strings.Join(log, ";")
 }
